@@ -608,7 +608,7 @@ func TestReencode(t *testing.T) {
 				return
 			}
 			secs := p.RawSections(data)
-			op := c.PickStr("reencode.op", "unknown-section", "unknown-section", "reorder", "duplicate", "drop", "identity", "unknown-wrap")
+			op := c.PickStr("reencode.op", "unknown-section", "unknown-section", "reorder", "duplicate", "drop", "identity", "unknown-wrap", "length-cancel")
 			switch op {
 			case "unknown-section":
 				pos := c.Int("reencode.pos", 0, len(secs)-1) // anywhere before "responses"
@@ -619,6 +619,20 @@ func TestReencode(t *testing.T) {
 				secs = append(ns, secs[pos:]...)
 				c.Fault("reencode-unknown-section")
 				c.Event("unknown section %q (%d bytes) inserted at position %d of %d", name, len(junk), pos, len(secs)-1)
+			case "length-cancel":
+				// two declared section lengths changed by +d and -d (mod 2^64): every sum of
+				// lengths that includes both is unchanged, each length alone is absurd
+				if len(secs) < 2 {
+					op = "identity"
+					break
+				}
+				i := c.Int("reencode.i", 0, len(secs)-2)
+				j := c.Int("reencode.j", i+1, len(secs)-1)
+				d := c.PickU64("reencode.d", 1<<63, ^uint64(0)-7, 1<<40, ^uint64(0)-(1<<40)+1, 1<<32, ^uint64(0)-uint64(len(secs[i].Data))+1)
+				li, lj := uint64(len(secs[i].Data))+d, uint64(len(secs[j].Data))-d
+				secs[i].Decl, secs[j].Decl = &li, &lj
+				c.Fault("reencode-cancelling-section-lengths")
+				c.Event("declared lengths of %q and %q changed to %d and %d", secs[i].Name, secs[j].Name, li, lj)
 			case "unknown-wrap":
 				// unknown sections whose declared lengths do not match their (empty) data and
 				// whose sum wraps around 2^64: a reader that adds lengths without checking lands
